@@ -25,6 +25,7 @@ CLASSES = {
     'pin': {'quick': 14400, 'thorough': 144000},        # impose_at, impose_as
     'stats': {'quick': 9600, 'thorough': 96000},       # with_mean/variance/std/spread, normalized
     'rewrite': {'quick': 14400, 'thorough': 144000},    # masked, partial, synchronized, clipped, suppressed
+    'reconfigure': {'quick': 6000, 'thorough': 60000},   # setters of the decorated functions (index, samples, digits, nearest)
 }
 MIN_EVENTS = {'quick': {'assert:target': 6000, 'assert:frame': 6000, 'assert:idem': 5000, 'assert:type': 5000}}
 ident = lambda x: x
@@ -408,6 +409,76 @@ def run_pin(rng, obs):
     obs.notes = {'y': yl}
 
 
+def run_reconfigure(rng, obs):
+    """the decorated functions can be re-targeted through their setters (index, samples, digits, type, clip, nearest): after a setter call the
+    function must behave as one freshly built with the new setting - for inputs of the SAME length as before too (nothing remembered)"""
+    import mystic.constraints as mc
+    which = rng.choice(['discrete', 'integers', 'rounded', 'precision', 'sorting', 'monotonic', 'impose_bounds'])
+    n = rng.randint(2, 9)
+    def idx():
+        r = rng.random()
+        if r < 0.25: return None
+        return tuple(sorted(rng.sample(range(n), rng.randint(1, n))))
+    A, B = idx(), idx()
+    x1, x2 = gen_vec(rng, n), gen_vec(rng, n)
+    steps = []
+    if which == 'discrete':
+        S1 = sorted(set(rng.choice([-7.0, -3.5, -1.0, 0.0, 0.5, 2.0, 2.5, 4.0, 8.0]) for _ in range(rng.randint(1, 5))))
+        S2 = sorted(set(rng.choice([-6.0, -2.0, 1.0, 3.0, 7.5]) for _ in range(rng.randint(1, 4))))
+        f = mc.discrete(list(S1), index=A)(ident)
+        fresh = lambda S, I: mc.discrete(list(S), index=I)(ident)
+        cur = {'S': S1, 'I': A}
+        ops = [('index', B), ('samples', S2), ('index', A)]
+        def apply(op, v):
+            if op == 'index': f.index(v); cur['I'] = v
+            else: f.samples(list(v)); cur['S'] = v
+        build = lambda: fresh(cur['S'], cur['I'])
+    elif which == 'integers':
+        f = mc.integers(ints=float, index=A)(ident)
+        cur = {'I': A}
+        ops = [('index', B), ('index', A)]
+        def apply(op, v): f.index(v); cur['I'] = v
+        build = lambda: mc.integers(ints=float, index=cur['I'])(ident)
+    elif which in ('rounded', 'precision'):
+        d1, d2 = rng.choice([0, 1, 2]), rng.choice([None, 1, 3, -1])
+        f = getattr(mc, which)(digits=d1, index=A)(ident)
+        cur = {'I': A, 'D': d1}
+        ops = [('index', B), ('digits', d2), ('index', A)]
+        def apply(op, v):
+            if op == 'index': f.index(v); cur['I'] = v
+            else: f.digits(v); cur['D'] = v
+        build = lambda: getattr(mc, which)(digits=cur['D'], index=cur['I'])(ident)
+    elif which in ('sorting', 'monotonic'):
+        asc = rng.choice([True, False])
+        f = getattr(mc, which)(ascending=asc, index=A)(ident)
+        cur = {'I': A}
+        ops = [('index', B), ('index', A)]
+        def apply(op, v): f.index(v); cur['I'] = v
+        build = lambda: getattr(mc, which)(ascending=asc, index=cur['I'])(ident)
+    else:
+        lo = float(rng.choice([-5, -2, 0])); hi = lo + float(rng.choice([1, 3, 6]))
+        f = mc.impose_bounds((lo, hi), index=A, clip=True, nearest=True)(ident)
+        cur = {'N': True}
+        ops = [('nearest', False), ('nearest', True)]
+        def apply(op, v): f.nearest(v); cur['N'] = v
+        build = lambda: mc.impose_bounds((lo, hi), index=A, clip=True, nearest=cur['N'])(ident)
+    obs.desc = {'decorator': which, 'index_before': A, 'index_after': B, 'x1': x1, 'x2': x2, 'n': n}
+    def same(a, b):
+        a, b = tolist(a), tolist(b)
+        return len(a) == len(b) and all(p == q or (p != p and q != q) for p, q in zip(a, b))
+    y = f(list(x1)); z = build()(list(x1))
+    obs.check(same(y, z), 'idem:a decorated function keeps no state between calls (second vector, other length)', decorator=which, phase='before any setter', reused=tolist(y), fresh=tolist(z))
+    for op, v in ops:
+        apply(op, v); steps.append([op, v if not isinstance(v, tuple) else list(v)])
+        for xx in (x2, x1):
+            y = f(list(xx)); z = build()(list(xx))
+            obs.check(same(y, z), 'target:after a setter call the decorated function behaves as one freshly built with the new setting', decorator=which, setters=steps,
+                      x=xx, reconfigured=tolist(y), fresh=tolist(z))
+    obs.event('setter_calls', len(ops))
+    obs.nontrivial = A != B
+    obs.notes = {'setters': steps}
+
+
 # --------------------------------------------------------------------------- statistics
 def run_stats(rng, obs):
     import mystic.constraints as mc
@@ -532,4 +603,4 @@ def run_case(cls, idx, rng, obs):
     warnings.simplefilter('ignore')
     np.seterr(all='ignore')
     return {'bounds': run_bounds, 'grid': run_grid, 'unique': run_unique, 'order': run_order,
-            'pin': run_pin, 'stats': run_stats, 'rewrite': run_rewrite}[cls](rng, obs)
+            'pin': run_pin, 'stats': run_stats, 'rewrite': run_rewrite, 'reconfigure': run_reconfigure}[cls](rng, obs)
